@@ -210,13 +210,35 @@ func mergeAliasing(c *Ctx, fl w2aFlavour, dst, src protoreflect.Message, what st
 	}
 }
 
-func mergeOnePair(c *Ctx, t *w2aTarget) {
+func mergeOnePair(c *Ctx, t *w2aTarget) { mergeOnePairOpts(c, t, false) }
+
+// mergeOnePairOpts: with lazyDense, the table-driven flavour is used, both messages are densely
+// populated (so that [lazy=true] fields are present on both sides) and every decode is lazy.
+func mergeOnePairOpts(c *Ctx, t *w2aTarget, lazyDense bool) {
 	fl := t.fls[c.Intn(len(t.fls))]
+	if lazyDense {
+		fl = t.fls[0]
+	}
 	defer w2aRecover(c, "C07", fl.what())
 	id := t.schema(c)
 	depth := 1 + c.Intn(3)
 	a, b := fl.new(), fl.new()
-	if !w2aFill(c, a, depth, true) || !w2aFill(c, b, depth, true) {
+	if lazyDense {
+		fill := func(m protoreflect.Message) (ok bool) {
+			defer func() {
+				if r := recover(); r != nil {
+					ok = false
+				}
+			}()
+			budget := 120
+			msgRandomFillOpts(c, m, 2, msgFillOpts{budget: &budget, badUTF8: false, unknown: c.Bool(), dense: true})
+			return true
+		}
+		if !fill(a) || !fill(b) {
+			return
+		}
+		c.Stat("pair_lazy_dense")
+	} else if !w2aFill(c, a, depth, true) || !w2aFill(c, b, depth, true) {
 		return
 	}
 	if c.Intn(12) == 0 {
@@ -225,7 +247,7 @@ func mergeOnePair(c *Ctx, t *w2aTarget) {
 	if c.Intn(12) == 0 {
 		a = fl.new() // empty destination: Merge = Clone
 	}
-	lazyA := !fl.slow && msgHasLazy(fl.md) && c.Bool() // destination still holds undecoded lazy fields
+	lazyA := !fl.slow && msgHasLazy(fl.md) && (c.Bool() || lazyDense) // destination still holds undecoded lazy fields
 	c.Stat("pair_" + fl.name)
 
 	// --- Merge(a', b) against the model and against the decoder
@@ -315,7 +337,7 @@ func mergeOnePair(c *Ctx, t *w2aTarget) {
 		case 1:
 			x, y = msgRewriteOpts(c, fl.md, ba, 3, true), msgRewriteOpts(c, fl.md, bb, 3, true)
 		}
-		lazy := !fl.slow && msgHasLazy(fl.md) && c.Bool()
+		lazy := !fl.slow && msgHasLazy(fl.md) && (c.Bool() || lazyDense)
 		o := proto.UnmarshalOptions{NoLazyDecoding: !lazy}
 		mx, ex := w2aUnmarshal(fl, x, o)
 		my, ey := w2aUnmarshal(fl, y, o)
@@ -452,4 +474,26 @@ func famMerge(c *Ctx) {
 	c.StatN("linked_types", len(corpus))
 	mergeCorpus(c, corpus)
 	w2aSchedule(c, corpus, rnd, c.N, func(t *w2aTarget) { mergeOnePair(c, t) })
+	// types that declare a [lazy=true] field: merges between two lazily decoded messages whose
+	// lazy fields are populated on both sides
+	k := 2 + c.N/400
+	for _, t := range corpus {
+		fl := t.fls[0]
+		if fl.noDec || fl.slow {
+			continue
+		}
+		direct := false
+		for i := 0; i < fl.md.Fields().Len(); i++ {
+			if msgIsLazyField(fl.md.Fields().Get(i)) {
+				direct = true
+			}
+		}
+		if !direct {
+			continue
+		}
+		c.Stat("lazy_types")
+		for i := 0; i < k; i++ {
+			mergeOnePairOpts(c, t, true)
+		}
+	}
 }
